@@ -27,8 +27,8 @@ Scope and assumptions (also in the evidence):
     surrogates, list, dict) plus ``range``, ``Undefined`` and ``Markup``; user drops and custom
     filters/tags are outside;
   * ``str(x)`` of a data value that may be an int (or a list/dict holding one) is a ValueError
-    site (int/str conversion limit); f-string interpolation of data values is not armed (no such
-    site exists outside error messages);
+    site (int/str conversion limit), and so is f-string interpolation ``f"{x}"`` of such a value
+    (primitive ``str(int) fstring:<arg>``);
   * AttributeError / TypeError on values whose kinds are unknown (anything that may be a repo
     object) are not armed; RecursionError / MemoryError belong to C09;
   * third-party internals beyond the trusted rows of the primitive table are not decided.
@@ -439,7 +439,7 @@ def run(repo: Repo) -> Result:
     )
     res.assumptions = [
         "render data are JSON-like values, range, Undefined and Markup (no user drops / custom filters)",
-        "f-string interpolation of data values is not armed for the int/str conversion limit (only str(x) is)",
+        "f-string interpolation with a conversion or format spec (f'{x!r}', f'{x:>5}') is not armed for the int/str conversion limit (plain f'{x}' and str(x) are)",
         "AttributeError/TypeError on values of unknown kind (possibly repo objects) are not armed",
         "third-party internals beyond the trusted rows (dateutil, babel, pytz) are not decided",
     ]
